@@ -74,6 +74,19 @@ func c03One(v interface{}, ch refcodec.Choices, opt refcodec.EncOptions, tm map[
 	if cerr := vcmp.EqualValues(b, a); cerr != nil {
 		return refBytes, e.NonCanonical, "", fmt.Sprintf("a legal encoding decodes to a different value than the encoder's own rendering: %v", cerr), ""
 	}
+	// the same octets from a source that delivers one per Read and reports the end together with the last one:
+	// full-width numbers, chunk headers and counts then never arrive in one piece
+	if len(refBytes) < 1500 {
+		var a2 interface{}
+		if pv, st := guard(func() {
+			a2, err = hessian.NewDecoder(&countingReader{b: refBytes, max: 1, eofWithData: true}, tm).ReadObject()
+		}); pv != nil || err != nil {
+			return refBytes, e.NonCanonical, "", fmt.Sprintf("a legal encoding is not decoded when its octets arrive one per Read: %v %v [%s]", err, pv, st), ""
+		}
+		if cerr := vcmp.EqualValues(a, a2); cerr != nil {
+			return refBytes, e.NonCanonical, "", fmt.Sprintf("a legal encoding decodes to a different value when its octets arrive one per Read: %v", cerr), ""
+		}
+	}
 	return refBytes, e.NonCanonical, "", "", ""
 }
 
